@@ -22,6 +22,7 @@ def run(chk):
         if 'is violated' not in r['out']:
             raise common.tlcrun.MachineryError('negative configuration %s was not refuted' % cfg)
         chk.extra.setdefault('negative_configurations_refuted', []).append(cfg)
+    common.conformance_canary(chk)       # a deviant model (one incref forgotten) must be told apart from the code
     shards += common.stage_graph(
         chk, 'MC_Core2', 'MC_Core2.cfg' if q else 'MC_Core2_deep.cfg',
         ['a', 'b'], 2, limit=1500 if q else None, need_actions=CORE_ACTIONS)
